@@ -41,5 +41,11 @@ TEXTS = {
         level_text="Generated-input search against independent references for every pure placement predicate (tens of thousands of cases per run) plus generated whole-core deployments whose ACCEPT/DECLINE calls are checked against the offers. Exploration level: the input space (offers x descriptors x constraint trees) is unbounded.",
         level_note="Only acceptance of an unsuitable agent/offer counts as a violation; the numeric port thresholds (9000/30000) are not part of the oracle.",
     ),
+    "C02": dict(
+        engine="simworld",
+        technique="property-based testing with fault enumeration (rapid): generated workflow shapes and per-task outcome matrices executed against the whole real core (child process) and a simulated Mesos master/executors; reference model success <=> every critical task ok; destination-never-reported checked on replies, polled listings and forwarded events",
+        level_text="Fault enumeration by generated outcome matrices over the real task manager, command queue, scheduler and environment state machine, driven through the public gRPC API: ~150 histories per quick run, thousands in the thorough tier, plus a slow shard for silent/dying tasks (90-120 s compiled-in timeouts). The oracle is a reference model written from the property statement. The space of shapes x outcome assignments is sampled, not exhausted.",
+        level_note="Trusts the Mesos/executor simulation (built on mesos-go's own wire types); per-task 'undeliverable' is modelled as silence because a real master accepts MESSAGE calls it cannot deliver; one open known finding (non-critical undeployable task) is excluded by construction and reproduced by a canary.",
+    ),
 }
 NA_REASONS = {}
